@@ -155,6 +155,14 @@ func shrinkOpsStrings(p Plan, get func(*Plan) []Op, set func(*Plan, []Op), pred 
 }
 
 func shrinkConfig(p Plan, pred failPred, budget *int) Plan {
+	if p.Cfg.Profile != "" && *budget > 0 {
+		c := p
+		c.Cfg = Config{} // does it need the profile at all?
+		*budget--
+		if pred(&c) {
+			p = c
+		}
+	}
 	for i := 0; i < len(p.Cfg.Opts) && *budget > 0; {
 		c := p
 		c.Cfg.Opts = append(append([]OptSpec(nil), p.Cfg.Opts[:i]...), p.Cfg.Opts[i+1:]...)
